@@ -92,7 +92,11 @@ func containsHostile(v string) bool {
 // /repo/css/handlers.go so that the vocabulary follows the code under test.
 func cssSourcePool() (lits []string, props []string) {
 	fset := token.NewFileSet()
-	f, err := parser.ParseFile(fset, "/repo/css/handlers.go", nil, 0)
+	repo := os.Getenv("VERIF_REPO")
+	if repo == "" {
+		repo = "/repo"
+	}
+	f, err := parser.ParseFile(fset, repo+"/css/handlers.go", nil, 0)
 	if err != nil {
 		return nil, nil
 	}
